@@ -1,6 +1,6 @@
 \* one channel: 263,292 distinct / 5,294,724 generated states, depth 11, ~2 min with 8 idle workers
 \* (MaxOpen = 2: 351,056 distinct / 10,370,036 generated; every action taken, checked once with -coverage 1)
-SPECIFICATION Spec
+SPECIFICATION SpecX
 CONSTANTS
   Chans = {"c1"}
   Ids = {1, 2, 3}
@@ -16,7 +16,9 @@ CONSTANTS
   ProbeFroms <- MCProbeFroms
   ProbeNos <- MCProbeNos
   KeepRmaxVariant = FALSE
-VIEW View
-INVARIANTS TypeOK C07_Contiguous C07_CachedLogEnd C07_IndexSound C08_KeyUnique C08_IdOnce C08_FilterCovers
-PROPERTIES C07_AppendAtEnd C07_ReopenNeutral C08_DuplicateRejected
+  Pids = {}
+  ProbePids <- MCProbePids
+VIEW ViewX
+INVARIANTS TypeOK C07_Contiguous C07_CachedLogEnd C07_IndexSound C08_KeyUnique C08_IdOnce C08_FilterCovers TypeOKX C07_ExactSound
+PROPERTIES C07_AppendAtEnd C07_ReopenNeutral C08_DuplicateRejected C07_ExactAtEnd C07_ReplaceKeeps C07_ReopenNeutralX C08_DuplicateRejectedX
 CHECK_DEADLOCK FALSE
